@@ -27,7 +27,7 @@
 
 #define MAXTOK 256
 #define NFILES 24
-#define NSLOT 512
+#define NSLOT 4096
 #define GUARD 64
 
 /* ------------------------------------------------------------------ */
